@@ -83,7 +83,7 @@ let rec code_s (c : instr list) : string list =
     | IClPush _ -> ["push"]
     | IClTrunc h -> ["trunc" ^ string_of_int (int_of_nat h)]
     | IJump l -> ["jmp" ^ string_of_int (int_of_nat l)]
-    | IJumpIf (l, nt, _) -> ["jif" ^ string_of_int (int_of_nat l) ^ (if nt then "t" else "f")]
+    | IJumpIf (l, nt, _) | IJumpLast (l, nt) -> ["jif" ^ string_of_int (int_of_nat l) ^ (if nt then "t" else "f")]
     | ILabel l -> ["lbl" ^ string_of_int (int_of_nat l)]
     | ICall c | IPcall c | ICoro (c, _) -> ["fn("] @ code_s c @ [")"]
     | ITailCall c -> ["fn("] @ code_s c @ [")"; "tail"]
